@@ -121,6 +121,12 @@ type VC05Hop struct {
 	WireOK       bool // wireServe&wireEligible != 0 and a body exists for the client's DO class
 	Recomposable bool
 	Due          bool
+	// the same entry as the decoded path reads it (CacheEntry.ToMsg decodes the FULL stored body; DNSSEC
+	// records are removed later, by the edns writer, for a client without DO)
+	FullRecs            []VC05Rec
+	FullNS, FullExtra   int
+	FullRcode           int
+	FullAD, FullDNSSEC  bool
 }
 
 type VC05Chase struct {
@@ -203,6 +209,29 @@ func vC05ChaseView(c *Cache, raw []byte, do bool, withCode bool) *VC05Chase {
 				}
 			} else {
 				h.WireOK = false
+			}
+		}
+		if fm := new(dns.Msg); fm.Unpack(entry.wire) == nil {
+			h.FullRcode, h.FullAD, h.FullNS, h.FullExtra = fm.Rcode, fm.AuthenticatedData, len(fm.Ns), len(fm.Extra)
+			for _, rr := range fm.Answer {
+				r := VC05RecOf(rr)
+				r.TTL = 0
+				h.FullRecs = append(h.FullRecs, r)
+				switch rr.Header().Rrtype {
+				case dns.TypeRRSIG, dns.TypeNSEC, dns.TypeNSEC3:
+					h.FullDNSSEC = true
+				}
+			}
+			if body == nil {
+				// no byte-servable body for this DO class: the decoded path still follows the full body's alias
+				for _, rr := range fm.Answer {
+					if rr.Header().Rrtype == qtype {
+						hasQ = true
+					}
+					if cn, ok := rr.(*dns.CNAME); ok {
+						next = strings.ToLower(cn.Target)
+					}
+				}
 			}
 		}
 		out.Hops = append(out.Hops, h)
